@@ -155,6 +155,8 @@ fixed("C03", "71a1f76", "pcovr_covariance compared the round-off eigenvalues of 
 
 fixed("C07", "cf1eb8d", "CUR / PCov-CUR handed the absolute tolerance 1e-12 to X_orthogonalizer: the round-off residual (eps x norm) of an item that is an exact copy of selected items was normalised and projected out as a noise direction for data of scale >~ 1e4; importance scores off by 0.015 (feature CUR, k=2, recompute_every=2, 11x20 table of scale 8192 with a duplicated column)")
 
+fixed("C08", "9596237", "VoronoiFPS._init_greedy_search reset vlocation_of_idx and dSL_ before it validated full_fraction / n_trial_calculation: after a cold refit that was refused for an illegal switching point the earlier selection was kept but its tessellation was gone, and the next legal warm start pruned with stale cells and re-selected points at distance 0 (20 of 20 clustered clouds: fit(8), refused fit with full_fraction=2.0, warm start to 30 differs from the cold fit / from FPS); reported as a side observation by a round-7 sub-agent, confirmed on the unchanged tree")
+
 # ------------------------------------------------------------------ C15
 fixed("C15", "d67ecc1", "periodic_pairwise_euclidean_distances(list-of-lists, cell_length=...) raised AttributeError: the dimension check read X.shape before the documented array-like input was validated")
 
